@@ -207,6 +207,8 @@ type W struct {
 	fails       map[string]*failRec
 	knownHit    map[string]int64
 	cur         any // case being judged (for panic reports)
+	// Prev is free for a judge to keep the previous case of this worker in (histories of the form A, B, A).
+	Prev any
 	scratch     []byte
 	flip        bool
 	scratchLast string
@@ -918,9 +920,15 @@ func (w *W) RetainBytes(c any, label string, got []byte, want string) {
 		if cur := p.current(); cur != p.want {
 			w.Fail(p.c, "earlier-result-changed-by-later-call", fmt.Sprintf("%s: a result that read %q when it was returned reads %q after a later call", label, p.want, cur))
 		}
-		// the earlier result belongs to the caller, who now reuses its storage for something else
-		for i := range p.bytes {
-			p.bytes[i] = '#'
+		// the earlier result belongs to the caller, who now reuses its storage - including any spare capacity it came with -
+		// for something else
+		before := string(got)
+		full := p.bytes[:cap(p.bytes)]
+		for i := range full {
+			full[i] = '#'
+		}
+		if string(got) != before {
+			w.Fail(c, "result-storage-shared", fmt.Sprintf("%s: a result that read %q changed to %q when the caller reused the storage (length and spare capacity) of the result it had been given before", label, before, got))
 		}
 	}
 	w.retained[label] = &retained{c: c, bytes: got, isBytes: true, want: want}
@@ -929,8 +937,9 @@ func (w *W) RetainBytes(c any, label string, got []byte, want string) {
 // Owned checks that a returned byte slice belongs to the caller: the caller overwrites it, and produce() - the same call
 // again - must still give want. A library that hands out storage it keeps using would now show the caller's scribble.
 func (w *W) Owned(c any, label string, got []byte, want string, produce func() ([]byte, error)) {
-	for i := range got {
-		got[i] = '#'
+	full := got[:cap(got)]
+	for i := range full {
+		full[i] = '#'
 	}
 	again, err := produce()
 	if err != nil || string(again) != want {
